@@ -9,10 +9,10 @@ Definition kA : key := [97].  Definition kB : key := [98].  Definition kC : key 
 Definition kD : key := [100]. Definition kE : key := [101]. Definition kF : key := [102].
 Definition kG : key := [103]. Definition kH : key := [104]. Definition kI : key := [105].
 
-(* F2a: one Set on a fresh tree; TotalAccumulatedValue = 0, the map's total is 16 *)
+(* (F2a, repaired in /repo by 9b85b1164c: the former witness - one Set on a fresh tree - now gives the true total) *)
 Definition w_total_ops : list op := [OSet [103; 98] false 16].
-Lemma w_total : exists st, run_new 2 w_total_ops = Ok st /\
-  total_acc st = Ok 0 /\ sm_total (sm_run sm_init w_total_ops) = 16.
+Lemma w_total_fixed : exists st, run_new 2 w_total_ops = Ok st /\
+  total_acc st = Ok 16 /\ sm_total (sm_run sm_init w_total_ops) = 16.
 Proof. eexists; split; [vm_compute; reflexivity|]. split; vm_compute; reflexivity. Qed.
 
 (* F2b: m = 2; a, b, c inserted; b (first entry of node (1,"b") = [b; c]) removed: the node stays keyed "b", and a split at
@@ -48,7 +48,7 @@ Proof. eexists; split; [vm_compute; reflexivity|]. split; vm_compute; reflexivit
 
 Lemma full_refuted : ~ C16_full_statement.
 Proof.
-  intro H. destruct (H 2%nat w_total_ops ltac:(lia)) as (st & Hr & _ & A).
-  destruct w_total as (st' & Hr' & Ht & Hs). rewrite Hr in Hr'. inversion Hr'; subst st'.
-  pose proof (af_total _ _ A) as T. rewrite Ht, Hs in T. discriminate.
+  intro H. destruct (H 2%nat w_panic_ops ltac:(lia)) as (st & Hr & _ & A).
+  destruct w_panic as (st' & Hr' & Hp & _). rewrite Hr in Hr'. inversion Hr'; subst st'.
+  pose proof (af_split _ _ A kB) as T. rewrite Hp in T. discriminate.
 Qed.
